@@ -29,8 +29,11 @@ type Parked struct {
 	// scheduler releases it with one of the alternatives 0..Alts-1.
 	Alts   int
 	choice int
-	ch     chan struct{}
-	gid    uint64
+	// Idle: eligible only when no other goroutine is enabled (a harness point
+	// that lets everything else run as far as it can first).
+	Idle bool
+	ch   chan struct{}
+	gid  uint64
 }
 
 // Sched is one scheduler instance (one per execution).
@@ -131,7 +134,15 @@ func PointIf(label string, enabled func() bool) { park(label, enabled, 1) }
 // n alternatives; 0 is the default. Outside a controlled scheduler it returns 0.
 func PointChoice(label string, n int) int { return park(label, nil, n) }
 
+// PointIdle is a scheduling point that the scheduler passes only when nothing
+// else is enabled: the rest of the system has run as far as it can.
+func PointIdle(label string) { parkOpt(label, nil, 1, true) }
+
 func park(label string, enabled func() bool, alts int) int {
+	return parkOpt(label, enabled, alts, false)
+}
+
+func parkOpt(label string, enabled func() bool, alts int, idle bool) int {
 	s := cur.Load()
 	if s == nil {
 		return 0
@@ -149,7 +160,7 @@ func park(label string, enabled func() bool, alts int) int {
 		name = fmt.Sprintf("lib:%s#%d", label, k)
 		s.names[g] = name
 	}
-	p := &Parked{Name: name, Label: label, Enabled: enabled, Alts: alts, ch: make(chan struct{}), gid: g}
+	p := &Parked{Name: name, Label: label, Enabled: enabled, Alts: alts, Idle: idle, ch: make(chan struct{}), gid: g}
 	s.parked = append(s.parked, p)
 	s.mu.Unlock()
 	<-p.ch
